@@ -1,1 +1,2 @@
+pub mod layout;
 pub mod retrace;
